@@ -539,15 +539,16 @@ func getTypeName(ident ir.LocalIdent) string {
 	if ident.IsUnnamed() {
 		return strconv.FormatInt(ident.LocalID, 10)
 	}
-	if isDecimal(ident.LocalName) {
-		// A quoted name made of digits only, e.g. %"42" or %"042": keep it with
-		// its quotes and as written, which tells it from the type ID %42 and
-		// from other spellings of the same number.
-		return `"` + ident.LocalName + `"`
-	}
-	if x, err := strconv.ParseInt(ident.LocalName, 10, 64); err == nil && strconv.FormatInt(x, 10) == ident.LocalName {
-		// Print LocalName with quotes if it is a number; e.g. %"42".
-		return fmt.Sprintf(`"%d"`, x)
+	if x, err := strconv.ParseInt(ident.LocalName, 10, 64); err == nil {
+		if strconv.FormatInt(x, 10) == ident.LocalName {
+			// Print LocalName with quotes if it is a number; e.g. %"42".
+			return fmt.Sprintf(`"%d"`, x)
+		}
+		if isDecimal(ident.LocalName) {
+			// Another spelling of a number, e.g. %"042": kept with its quotes and
+			// as written, which tells it from the type ID %42 and from %"42".
+			return `"` + ident.LocalName + `"`
+		}
 	}
 	return ident.LocalName
 }
